@@ -452,6 +452,27 @@ pub fn all_params(tier: Tier) -> Vec<(Params, usize)> {
             }
         }
     }
+    // Part A2: alignment sweep — chunk sizes in windows around the receive loop's block size (8192) and its multiples, so
+    // that for some size a transport read ends 1..6 bytes into the next frame's header exactly when it fills the block
+    {
+        let mut aseqs: Vec<Vec<usize>> = vec![];
+        let win: Vec<usize> = if thorough { (8100..=8210).collect() } else { (8140..=8200).collect() };
+        for w in &win {
+            aseqs.push(vec![*w, 9]);
+            aseqs.push(vec![65535, *w, 9]);
+        }
+        for w in if thorough { 16300..=16400usize } else { 16340..=16390usize } {
+            aseqs.push(vec![w, 9]);
+        }
+        for seq in aseqs {
+            for up in [true, false] {
+                v.push((
+                    Params { streams: 1, flows: vec![Flow { stream: 0, up, path: Path::Direct, chunks: seq.clone(), read_buf: 8192, read_pattern: vec![] }], scheme: STOP0, scheme_name: "stop0", capacity: usize::MAX, read_menu: false, write_menu: false },
+                    0,
+                ));
+            }
+        }
+    }
     // Part B: concurrent flows with schedule / transport deviations
     let b = if thorough { 3 } else { 2 };
     let f = |stream, up, path, chunks: &[usize], rb| Flow { stream, up, path, chunks: chunks.to_vec(), read_buf: rb, read_pattern: vec![] };
@@ -775,7 +796,7 @@ pub fn run(tier: Tier) -> i32 {
         items(tier),
         DxOpts { time_cap: cap, det_replays: 2, max_violations: 2, vacuity_check: false },
     );
-    rep.finish("B=0 sweep: every sequence of <=2 (thorough: +3 over a reduced set) chunk sizes from {0,1,6,7,8,255,8191,8192,8193,65534,65535,65536,65537,70000,131072} x direction x path {write_data_frame, send_data} x 3 padding schemes x read-buffer sizes x pipe capacity; DX: concurrent flows on 1-2 streams with <= B yields / short reads / short or pending writes; IX at the hand-built Stream seam; non-trivial = distinct trace with >= 1 deviation (DX) or distinct seam case")
+    rep.finish("B=0 sweep: every sequence of <=2 (thorough: +3 over a reduced set) chunk sizes from {0,1,6,7,8,255,8191,8192,8193,65534,65535,65536,65537,70000,131072} x direction x path {write_data_frame, send_data} x 3 padding schemes x read-buffer sizes x pipe capacity; alignment sweep of chunk sizes in windows around 8192 / 16384 (the receive loop's block size); DX: concurrent flows on 1-2 streams with <= B yields / short reads / short or pending writes; IX at the hand-built Stream seam; non-trivial = distinct trace with >= 1 deviation (DX) or distinct seam case")
 }
 
 pub fn replay(file: &str) -> i32 {
